@@ -105,6 +105,10 @@ def Srv.bound (s : Srv) (pr : Proto) (p : Nat) : Bool :=
 
 def Srv.avail (s : Srv) (pr : Proto) (p : Nat) : Bool := !s.bound pr p
 
+def Srv.setExt (s : Srv) (e : List (Proto × Nat)) : Srv := { s with ext := e }
+def Srv.setLive (s : Srv) (l : List Pxy) : Srv := { s with live := l }
+def Srv.setLingering (s : Srv) (l : List Pxy) : Srv := { s with lingering := l }
+
 def Srv.quotaOf (s : Srv) (sid : Nat) : Nat := (s.quota.lookup sid).getD 0
 
 def Srv.setQuota (s : Srv) (sid n : Nat) : Srv :=
@@ -128,11 +132,9 @@ def Srv.register (s : Srv) (sid : Nat) (name : Str) (pr : Proto) (port : Nat)
     | (pm', .ok p) =>
       if grab then
         -- Listen fails: deferred Release(realBindPort); the other process now holds the port
-        let s1 := s.setPm pr (pm'.release p)
-        ({ s1 with ext := (pr, p) :: s1.ext }, .error .listen)
+        (((s.setPm pr (pm'.release p)).setExt ((pr, p) :: s.ext)), .error .listen)
       else
-        let s1 := s.setPm pr pm'
-        let s2 := { s1 with live := { name := name, sid := sid, proto := pr, port := p } :: s1.live }
+        let s2 := (s.setPm pr pm').setLive ({ name := name, sid := sid, proto := pr, port := p } :: s.live)
         ((if s.maxPorts > 0 then s2.setQuota sid (s.quotaOf sid + 1) else s2), .ok p)
 
 /-- `Control.CloseProxy` (only proxies of the calling session) -/
@@ -141,9 +143,8 @@ def Srv.close (s : Srv) (sid : Nat) (name : Str) : Srv :=
   | none => s
   | some x =>
     let s1 := if s.maxPorts > 0 then s.setQuota sid (s.quotaOf sid - 1) else s
-    let s2 := s1.setPm x.proto ((s1.pm x.proto).release x.port)
-    { s2 with live := s2.live.filter (fun y => y.name ≠ name)
-              lingering := if x.proto = .udp then x :: s2.lingering else s2.lingering }
+    ((s1.setPm x.proto ((s.pm x.proto).release x.port)).setLive (s.live.filter (fun y => y.name ≠ name))).setLingering
+      (if x.proto = .udp then x :: s.lingering else s.lingering)
 
 /-- the udp forwarder goroutine's own `pxy.Close()` after the socket was closed.
     `guarded = true`: the Release sits inside the `!isClosed` guard (repaired code) → nothing happens.
@@ -152,15 +153,15 @@ def Srv.forwarderExit (guarded : Bool) (s : Srv) (name : Str) : Srv :=
   match s.lingering.find? (fun x => x.name = name) with
   | none => s
   | some x =>
-    let s1 := { s with lingering := s.lingering.filter (fun y => y.name ≠ name) }
-    if guarded then s1 else s1.setPm .udp (s1.udp.release x.port)
+    let s1 := s.setLingering (s.lingering.filter (fun y => y.name ≠ name))
+    if guarded then s1 else s1.setPm .udp (s.udp.release x.port)
 
 /-- another process binds / releases a port (binding succeeds only if nobody holds it) -/
 def Srv.squat (s : Srv) (pr : Proto) (p : Nat) : Srv :=
-  if s.bound pr p then s else { s with ext := (pr, p) :: s.ext }
+  if s.bound pr p then s else s.setExt ((pr, p) :: s.ext)
 
 def Srv.unsquat (s : Srv) (pr : Proto) (p : Nat) : Srv :=
-  { s with ext := s.ext.filter (· ≠ (pr, p)) }
+  s.setExt (s.ext.filter (· ≠ (pr, p)))
 
 def Srv.new (allowedTcp allowedUdp : List Nat) (maxPorts : Nat) : Srv :=
   { tcp := PM.new allowedTcp, udp := PM.new allowedUdp, ext := [], live := [], quota := [],
